@@ -40,6 +40,9 @@ CHECKS = {
  'C35': dict(cat='other', tech='cell-semantics postconditions (rendered operations with their bound operands applied to the previous value give the new value) on the real cqlengine Set/List/Map/CounterUpdateClause, MapDeleteClause and BaseValueManager for every (previous, new) pair over small universes, executed by the AST interpreter; BOUNDED random model-operation sequences through the real DMLQuery.save/update against an in-memory table with the same semantics',
              text='Bounded: clause level is exhaustive over sets on 3 elements, lists of length <= 3 (quick: over 2 elements plus 3 lists over 3), maps over 2 keys x 2 values, counters -3..3 (parametric in element values); flow level is 4 000 (thorough 60 000) random create + save/update sequences on one model with partition + clustering key, text, static, set, list, map columns. Server-side semantics beyond one cell are outside the model.',
              ref='DESIGN.md §4 C35', note='Trusted base: the cell-level CQL semantics function (spec), the pyvc AST interpreter executing the real methods, parametricity in element values; exploration, not proof.'),
+ 'C36': dict(cat='other', tech='deductive: integer postconditions on the real cqlengine DateTime.to_database over a symbolic instant and symbolic zone offsets at the value and at the epoch (datetime / tzinfo / timedelta as stubbed library contracts), Date.to_database, Integer/BigInt/VarInt.to_database; BOUNDED comparison of 22 column types with the core cqltypes serializers',
+             text='Mixed: the DateTime clause of the property (exact millisecond instant, naive or aware, independent of how the zone offset varies) and the Date / integer columns are proved for all values; every other column type (floats, decimal, text, blob, inet, uuid, time, collections, tuples) is only compared with the real core serializers on boundary and random values (8 000 quick / 100 000 thorough) - bounded, not proved.',
+             ref='DESIGN.md §4 C36', note='Trusted base: pyvc, the stubbed datetime/tzinfo/timedelta contract (E-DATETIME) and the oracle "whole milliseconds toward zero" taken from the core serializer (C02); the bounded part is exploration.'),
  'C31': dict(cat='proof', tech='deductive: lock-invariant proof of MonotonicTimestampGenerator.__call__ for arbitrary clock and history + frame scan',
              text='Lock invariant (all returned timestamps <= last) proved preserved by __call__ for an arbitrary prior state and clock reading; '
                   'strict monotonicity across threads follows for lock-respecting schedules; unprotected reads/writes of `last` fail an obligation.',
